@@ -1038,6 +1038,10 @@ func main() {
 	r.Cases("scripted", 16, hv, scripted)
 	r.Cases("rand/ascii", r.N(40000, 1280000), hv, cfg{als: small, minN: 1, maxN: 8, maxLen: 5}.run)
 	r.Cases("rand/utf8", r.N(40000, 1280000), hv, cfg{als: utf, minN: 1, maxN: 8, maxLen: 5}.run)
+	// the same workload on parallel workers under the race detector: package-level state shared
+	// between instances that no goroutine shares is reported from the happens-before relation,
+	// whether or not the accesses collide in this run (and however loaded the machine is)
+	r.CasesProc("rand/utf8/race-parallel", r.N(1000, 30000), ev.Opt{Bin: "race", Procs: 2, Workers: 8, AlwaysLog: true, HangViolation: true, MaxCaseSeconds: 120}, cfg{als: utf, minN: 1, maxN: 8, maxLen: 5}.run)
 	r.Cases("rand/fffd", r.N(20000, 640000), hv, cfg{als: fffd, minN: 1, maxN: 8, maxLen: 4}.run)
 	r.Cases("rand/wide", r.N(5000, 153600), hv, cfg{als: wide, minN: 11, maxN: 40, maxLen: 4}.run)
 	r.Cases("rand/big", r.N(60, 3000), hv, cfg{als: []alphabet{alphaABC, alphaMixed, alphaSib, alphaWide, alphaWideA}, minN: 40, maxN: 400, maxLen: 8, textRunes: []int{400, 1500, 4000}}.run)
